@@ -290,10 +290,11 @@ func execPop(in string) string {
 }
 
 // SERJ: JSON side, evaluated by implementation-level oracles:
-//   rt      populating a blank struct from the output reproduces the values
-//   plain   (flat shapes) the output decodes to the same map as encoding/json's own marshaller
-//   stable  serialising twice gives identical bytes
-//   cplain  (flat shapes) the CBOR output decodes to the same map as the plain CBOR marshaller
+//
+//	rt      populating a blank struct from the output reproduces the values
+//	plain   (flat shapes) the output decodes to the same map as encoding/json's own marshaller
+//	stable  serialising twice gives identical bytes
+//	cplain  (flat shapes) the CBOR output decodes to the same map as the plain CBOR marshaller
 func execSerJ(in string) string {
 	f := fields(in)
 	name := f[1]
@@ -303,9 +304,14 @@ func execSerJ(in string) string {
 		if err != nil {
 			return "err"
 		}
+		keep := string(j1)
+		// other serialisations in between: a returned document must not be backed by a reused buffer
+		for _, other := range []string{"allopt", "emb1", "flat"} {
+			_, _ = encoding.SerializeStructToJSON(newShape(other))
+		}
 		j2, _ := encoding.SerializeStructToJSON(s)
 		out := []string{"ok"}
-		out = append(out, "stable="+bit(bytes.Equal(j1, j2)))
+		out = append(out, "stable="+bit(bytes.Equal(j1, j2) && string(j1) == keep))
 		blank := newShape(name)
 		rt := "0"
 		if err := encoding.PopulateStructFromJSON(j1, blank); err == nil {
